@@ -20,3 +20,8 @@ Inductive omits_regions : list elem -> list elem -> Prop :=
 | omits_nil : omits_regions [] []
 | omits_skip : forall r a b, omits_regions a b -> omits_regions a (r :: b)
 | omits_keep : forall r a b, omits_regions a b -> omits_regions (r :: a) (r :: b).
+(* ... leaving out only regions that satisfy P (P := "paints nothing" is the property's allowance) *)
+Inductive omits_only (P : elem -> Prop) : list elem -> list elem -> Prop :=
+| omits_only_nil : omits_only P [] []
+| omits_only_skip : forall r a b, P r -> omits_only P a b -> omits_only P a (r :: b)
+| omits_only_keep : forall r a b, omits_only P a b -> omits_only P (r :: a) (r :: b).
